@@ -296,6 +296,16 @@ Theorem C12_adaptive_2d_bicubic_exact : forall (cp cq : list C) (ax bx ay by_ ep
   Cmult (cpint Rops cp ax bx) (cpint Rops cq ay by_).
 Proof. exact simpson_adaptive_2d_bicubic_exact. Qed.
 
+(* the 2-D form is the nest of two 1-D adaptive integrations: tolerance and depth reach BOTH levels unchanged (values and
+   integrand-call counts) *)
+Theorem C12_adaptive_2d_nest : forall (f : R -> R -> C) (ax bx ay by_ eps : R) d,
+  simpson_adaptive_2d Rops f ax bx ay by_ eps d =
+  simpson_adaptive Rops (fun x => simpson_adaptive Rops (fun y => f x y) ay by_ eps d) ax bx eps d /\
+  simpson_adaptive_2d_calls Rops f (fun _ _ => 1%nat) ax bx ay by_ eps d =
+  simpson_adaptive_calls Rops (fun x => simpson_adaptive Rops (fun y => f x y) ay by_ eps d)
+    (fun x => simpson_adaptive_calls Rops (fun y => f x y) (fun _ => 1%nat) ay by_ eps d) ax bx eps d.
+Proof. exact (fun f ax bx ay by_ eps d => conj (simpson_adaptive_2d_nest f ax bx ay by_ eps d) (simpson_adaptive_2d_calls_nest f ax bx ay by_ eps d)). Qed.
+
 (* the value returned when a panel is accepted is exact up to degree 5 (pins the Richardson constant 15) *)
 Theorem C12_adaptive_richardson_quintic : forall (cs : list C) (a b : R), a <= b -> (length cs <= 6)%nat ->
   richardson (cpeval Rops cs) a b = cpint Rops cs a b.
@@ -378,6 +388,12 @@ Proof. exact accept_from4. Qed.
 Theorem C12_accept_1d_2d : forall d, simpson_accepts d = true -> simpson2d_accepts d = true.
 Proof. exact accept_1d_2d. Qed.
 
+(* the number of divisions actually used stays within 2 of the requested divs (1-D: d-2..d, 2-D: d..d+1), so the textbook
+   error bound may be computed from the REQUESTED value *)
+Theorem C12_norm_bounds : forall d, (4 <= d)%Z ->
+  (d - 2 <= simpson_norm d <= d)%Z /\ (d <= simpson2d_norm d <= d + 1)%Z.
+Proof. exact norm_bounds. Qed.
+
 (* accepted parameters give an even number of divisions >= 2 in both forms *)
 Theorem C12_accept_norm : forall d,
   (simpson_accepts d = true -> Z.even (simpson_norm d) = true /\ (2 <= simpson_norm d)%Z) /\
@@ -394,6 +410,14 @@ Proof. exact cert_example. Qed.
 Example C12_ex_moments : forall k, (k <= 1)%nat ->
   Rabs (moment (big_rule 0 0 (BigZ.zero :: nil) (BigZ.two :: nil)) k - leg_moment k) <= IZR 0 / IZR 1.
 Proof. exact cert_example_moments. Qed.
+(* the same two hypotheses on a real rule: binary64 3-point Gauss-Legendre, degree 5, 1e-13 *)
+Example C12_ex_cert_gl3 : cert_check_big 106 52 5 1 (10 ^ 13) gl3_xs gl3_ws = true.
+Proof. exact cert_example_gl3. Qed.
+Example C12_ex_moments_gl3 : forall k, (k <= 5)%nat ->
+  Rabs (moment (big_rule 106 52 gl3_xs gl3_ws) k - leg_moment k) <= IZR 1 / IZR (10 ^ 13).
+Proof. exact cert_example_gl3_moments. Qed.
+Example C12_ex_range_gl3 : range_check_big 106 gl3_xs gl3_ws = true.
+Proof. exact range_example_gl3. Qed.
 Example C12_ex_accept_step : accept (fun _ => (0, 0)) 0 1 1 = true.
 Proof. exact accept_zero_example. Qed.
 
@@ -441,6 +465,7 @@ Print Assumptions C12_certified_rule_expi_exact.
 Print Assumptions C12_simpson2d_expi_bound.
 Print Assumptions C12_adaptive_cubic_exact.
 Print Assumptions C12_adaptive_2d_bicubic_exact.
+Print Assumptions C12_adaptive_2d_nest.
 Print Assumptions C12_adaptive_richardson_quintic.
 Print Assumptions C12_adaptive_accepted_error.
 Print Assumptions C12_adaptive_step.
@@ -455,4 +480,5 @@ Print Assumptions C12_adaptive_alias_family.
 Print Assumptions C12_adaptive_alias_family_result.
 Print Assumptions C12_accept_from4.
 Print Assumptions C12_accept_1d_2d.
+Print Assumptions C12_norm_bounds.
 Print Assumptions C12_accept_norm.
